@@ -1,5 +1,13 @@
+// The module path is deliberately inside google.golang.org/protobuf/cmd/protoc-gen-go:
+// it lets this program import .../protoc-gen-go/internal_gengo (Go "internal" rule is
+// import-path based) from the unmodified module-cache copy of google.golang.org/protobuf.
 module google.golang.org/protobuf/cmd/protoc-gen-go/pbgen
 
 go 1.25.13
 
-require google.golang.org/protobuf v1.36.12
+require (
+	github.com/envoyproxy/protoc-gen-validate v1.3.3
+	github.com/grpc-ecosystem/grpc-gateway/v2 v2.30.0
+	google.golang.org/genproto/googleapis/api v0.0.0-20260810153831-ec0a7760b754
+	google.golang.org/protobuf v1.36.12
+)
